@@ -1,13 +1,22 @@
 package interp
 
 import (
+	"fmt"
+
 	"gosym/smt"
 )
 
 // splitDivConst: strength reduction for signed a / C and a % C with a large constant C, proved
-// sound per use by the solver: if a = x*C + y syntactically and the path condition entails
-// 0 <= x <= 2^62/C and 0 <= y < 2C, then a/C = x + (y >= C ? 1 : 0) and a%C = y - (y >= C ? C : 0).
-// (Bit-blasting back ends do not finish 64-bit division by 10^9; see DESIGN.md 3.4.)
+// sound per use by the solver (bit-blasting back ends do not finish 64-bit division by 10^9; see
+// DESIGN.md 3.4). Three forms, tried in this order:
+//
+//  1. a = ite(c, a1, a2): divide both arms and join with ite.
+//  2. a = x*C + y syntactically (also under a low-bit mask, (x*C+y) &^ (2^k-1) with 2^k | C,
+//     which equals x*C + (y &^ (2^k-1)) in modular arithmetic), and the path condition entails
+//     0 <= x <= 2^62/C and 0 <= y < 2C: then a/C = x + (y >= C ? 1 : 0), a%C = y - (y >= C ? C : 0).
+//  3. otherwise, if the path condition entails 0 <= a < 2^62: fresh q, r with the defining
+//     constraint a = q*C + r, 0 <= r < C, 0 <= q <= 2^62/C added to the path condition (q, r are
+//     uniquely determined by it, so nothing is assumed about the inputs).
 func (i *interpreter) splitDivConst(a, b *smt.Term) (q, r *smt.Term, ok bool) {
 	if !b.IsConst() || b.W != 64 || b.Big != nil || a.IsConst() {
 		return nil, nil, false
@@ -16,46 +25,232 @@ func (i *interpreter) splitDivConst(a, b *smt.Term) (q, r *smt.Term, ok bool) {
 	if C < 1<<16 || C >= 1<<40 {
 		return nil, nil, false
 	}
+	q, r, ok = i.floorSplit(a, C, true)
+	if !ok {
+		return nil, nil, false
+	}
+	// truncated division (Go) equals floor division for a >= 0, i.e. q >= 0
+	if res, _ := i.check(i.ctx.Slt(q, i.ctx.BV(0, 64)), false); res != smt.Unsat {
+		return nil, nil, false
+	}
+	return q, r, true
+}
+
+type divKey struct {
+	id int
+	c  uint64
+}
+
+// floorSplit returns (q, r) with a = q*C + r, 0 <= r < C, |q| <= 2^62/C + 1 (no wrap-around), or
+// ok=false. With allowFresh the general form 3 is available, otherwise only forms 1 and 2.
+func (i *interpreter) floorSplit(a *smt.Term, C uint64, allowFresh bool) (q, r *smt.Term, ok bool) {
+	if k, ok := i.divCache[divKey{a.ID, C}]; ok {
+		return k[0], k[1], true
+	}
+	q, r, ok = i.floorSplit1(a, C, allowFresh, 0)
+	if ok {
+		if i.divCache == nil {
+			i.divCache = map[divKey][2]*smt.Term{}
+		}
+		i.divCache[divKey{a.ID, C}] = [2]*smt.Term{q, r}
+	}
+	return
+}
+
+func floorDivMod(a, c int64) (int64, int64) {
+	q, r := a/c, a%c
+	if r < 0 {
+		q--
+		r += c
+	}
+	return q, r
+}
+
+func (i *interpreter) floorSplit1(a *smt.Term, C uint64, allowFresh bool, depth int) (q, r *smt.Term, ok bool) {
 	c := i.ctx
-	var summands []*smt.Term
-	var flat func(t *smt.Term)
-	flat = func(t *smt.Term) {
+	b := c.BV(C, 64)
+	if a.IsConst() {
+		if a.Big != nil {
+			return nil, nil, false
+		}
+		av := int64(a.Val)
+		if av <= -(1<<62) || av >= 1<<62 {
+			return nil, nil, false
+		}
+		qq, rr := floorDivMod(av, int64(C))
+		return c.BV(uint64(qq), 64), c.BV(uint64(rr), 64), true
+	}
+	if a.Op == smt.OIte && depth < 6 {
+		q1, r1, ok1 := i.floorSplit1(a.Args[1], C, allowFresh, depth+1)
+		if ok1 {
+			q2, r2, ok2 := i.floorSplit1(a.Args[2], C, allowFresh, depth+1)
+			if ok2 {
+				return c.Ite(a.Args[0], q1, q2), c.Ite(a.Args[0], r1, r2), true
+			}
+		}
+	}
+	if q, r, ok = i.splitSyntactic(a, b, C); ok {
+		return
+	}
+	if !allowFresh {
+		return nil, nil, false
+	}
+	// general form: fresh quotient / remainder
+	lim := c.BV(uint64(1)<<62, 64)
+	inRange := c.And(c.Slt(c.Neg(lim), a), c.Slt(a, lim))
+	res, _ := i.check(c.Not(inRange), false)
+	if res != smt.Unsat {
+		return nil, nil, false
+	}
+	i.divCount++
+	q = c.Sym(fmt.Sprintf("div!q%d", i.divCount), 64)
+	r = c.Sym(fmt.Sprintf("div!r%d", i.divCount), 64)
+	zero := c.BV(0, 64)
+	qb := c.BV((uint64(1)<<62)/C+1, 64)
+	i.addPC(c.And(c.And(c.Sle(c.Neg(qb), q), c.Sle(q, qb)), c.And(c.Sle(zero, r), c.Slt(r, b))))
+	i.addPC(c.Eq(a, c.Add(c.Mul(q, b), r)))
+	i.res.Stubs["division by constant replaced by fresh quotient/remainder with defining constraint a = q*C + r, 0 <= r < C (range |a| < 2^62 proved by the solver)"] = true
+	return q, r, true
+}
+
+// mentionsMulConst finds a large constant C such that t is (an ite / low-bit mask / sum over)
+// x*C + y syntactically.
+func mentionsMulConst(t *smt.Term, depth int) (uint64, bool) {
+	if depth > 8 || t.W != 64 {
+		return 0, false
+	}
+	switch t.Op {
+	case smt.OMul:
+		for k := 0; k < 2; k++ {
+			m := t.Args[k]
+			if m.IsConst() && m.Big == nil && m.Val >= 1<<16 && m.Val < 1<<40 {
+				return m.Val, true
+			}
+		}
+	case smt.OAdd, smt.OSub:
+		if C, ok := mentionsMulConst(t.Args[0], depth+1); ok {
+			return C, true
+		}
 		if t.Op == smt.OAdd {
-			flat(t.Args[0])
-			flat(t.Args[1])
-			return
+			return mentionsMulConst(t.Args[1], depth+1)
 		}
-		summands = append(summands, t)
-	}
-	flat(a)
-	var x *smt.Term
-	y := c.BV(0, 64)
-	for _, s := range summands {
-		if x == nil && s.Op == smt.OMul {
-			if s.Args[0].IsConst() && s.Args[0].Big == nil && s.Args[0].Val == C {
-				x = s.Args[1]
-				continue
-			}
-			if s.Args[1].IsConst() && s.Args[1].Big == nil && s.Args[1].Val == C {
-				x = s.Args[0]
-				continue
+	case smt.OIte:
+		if C, ok := mentionsMulConst(t.Args[1], depth+1); ok {
+			return C, true
+		}
+		return mentionsMulConst(t.Args[2], depth+1)
+	case smt.OBAnd:
+		for k := 0; k < 2; k++ {
+			if t.Args[k].IsConst() {
+				return mentionsMulConst(t.Args[1-k], depth+1)
 			}
 		}
-		y = c.Add(y, s)
 	}
+	return 0, false
+}
+
+// linCompare rewrites a signed 64-bit comparison of two values of the shape x*C + y into the
+// lexicographic comparison of their (quotient, remainder) pairs, so that the query the solver
+// sees contains no multiplication. ok=false: leave the comparison as it is.
+// lt=true: a < b; lt=false: a == b.
+func (i *interpreter) linCompare(a, b *smt.Term, lt bool) (*smt.Term, bool) {
+	if a.W != 64 || (a.IsConst() && b.IsConst()) || i.cfg.Concrete != nil {
+		return nil, false
+	}
+	C, ok := mentionsMulConst(a, 0)
+	if !ok {
+		if C, ok = mentionsMulConst(b, 0); !ok {
+			return nil, false
+		}
+	}
+	qa, ra, ok := i.floorSplit(a, C, false)
+	if !ok {
+		return nil, false
+	}
+	qb, rb, ok := i.floorSplit(b, C, false)
+	if !ok {
+		return nil, false
+	}
+	c := i.ctx
+	if lt {
+		return c.Or(c.Slt(qa, qb), c.And(c.Eq(qa, qb), c.Slt(ra, rb))), true
+	}
+	return c.And(c.Eq(qa, qb), c.Eq(ra, rb)), true
+}
+
+// linForm returns x (nil if none) and y with t = x*C + y in arithmetic modulo 2^64:
+// sums and differences are flattened, and a low-bit mask over a sum, (x*C + y) &^ (2^k-1) with
+// 2^k | C, is moved onto y.
+func (i *interpreter) linForm(t *smt.Term, C uint64, depth int) (x, y *smt.Term) {
+	c := i.ctx
+	if depth > 16 {
+		return nil, t
+	}
+	switch t.Op {
+	case smt.OAdd:
+		x1, y1 := i.linForm(t.Args[0], C, depth+1)
+		x2, y2 := i.linForm(t.Args[1], C, depth+1)
+		switch {
+		case x1 != nil && x2 != nil:
+			return c.Add(x1, x2), c.Add(y1, y2)
+		case x1 != nil:
+			return x1, c.Add(y1, y2)
+		default:
+			return x2, c.Add(y1, y2)
+		}
+	case smt.OSub:
+		x1, y1 := i.linForm(t.Args[0], C, depth+1)
+		x2, y2 := i.linForm(t.Args[1], C, depth+1)
+		switch {
+		case x1 != nil && x2 != nil:
+			return c.Sub(x1, x2), c.Sub(y1, y2)
+		case x2 != nil:
+			return c.Neg(x2), c.Sub(y1, y2)
+		default:
+			return x1, c.Sub(y1, y2)
+		}
+	case smt.OMul:
+		for k := 0; k < 2; k++ {
+			m := t.Args[k]
+			if m.IsConst() && m.Big == nil && m.Val == C {
+				return t.Args[1-k], c.BV(0, 64)
+			}
+		}
+	case smt.OBAnd:
+		for k := 0; k < 2; k++ {
+			m := t.Args[k]
+			if m.IsConst() && m.Big == nil {
+				low := ^m.Val // must be 2^k - 1
+				if low&(low+1) == 0 && low < 1<<16 && C%(low+1) == 0 {
+					x1, y1 := i.linForm(t.Args[1-k], C, depth+1)
+					if x1 != nil {
+						return x1, c.BAnd(y1, m)
+					}
+				}
+				break
+			}
+		}
+	}
+	return nil, t
+}
+
+func (i *interpreter) splitSyntactic(a, b *smt.Term, C uint64) (q, r *smt.Term, ok bool) {
+	c := i.ctx
+	x, y := i.linForm(a, C, 0)
 	if x == nil {
 		return nil, nil, false
 	}
 	bound := c.BV((uint64(1)<<62)/C, 64)
 	zero := c.BV(0, 64)
-	cond := c.And(c.And(c.Sle(zero, x), c.Sle(x, bound)), c.And(c.Sle(zero, y), c.Slt(y, c.BV(2*C, 64))))
+	cond := c.And(c.And(c.Sle(c.Neg(bound), x), c.Sle(x, bound)), c.And(c.Sle(c.Neg(b), y), c.Slt(y, c.BV(2*C, 64))))
 	res, _ := i.check(c.Not(cond), false)
 	if res != smt.Unsat {
 		return nil, nil, false
 	}
-	i.res.Stubs["division by constant rewritten as quotient/remainder split under a solver-proved range condition"] = true
+	i.res.Stubs["x*C+y with large constant C handled as (quotient, remainder) pair under a solver-proved range condition (division, remainder and comparisons)"] = true
 	carry := c.Not(c.Slt(y, b))
-	q = c.Add(x, c.Ite(carry, c.BV(1, 64), zero))
-	r = c.Ite(carry, c.Sub(y, b), y)
+	borrow := c.Slt(y, zero)
+	q = c.Add(x, c.Ite(carry, c.BV(1, 64), c.Ite(borrow, c.BV(^uint64(0), 64), zero)))
+	r = c.Ite(carry, c.Sub(y, b), c.Ite(borrow, c.Add(y, b), y))
 	return q, r, true
 }
